@@ -14,7 +14,7 @@ META = {
     "bounds": {"quick": "histories of <= 7 steps over {start, stop, advance, complete}; from_periodic, from_iterable "
                         "(one-shot iterator of 4 items), from_textfile (fake file, 4 lines); manual tornado-future and "
                         "native-coroutine consumers",
-               "thorough": "histories of <= 10 steps, 6 items"},
+               "thorough": "histories of <= 9 steps, 6 items"},
     "outside": ["sources that override start/stop (kafka, tcp, http, websocket)", "several threads calling start/stop"],
     "stubs": ["event loop + clock: engine/vloop.py", "file object: in-memory fake with read()"],
     "assumptions": ["callbacks made ready in one loop iteration run FIFO (asyncio semantics)"],
@@ -146,7 +146,7 @@ def _body(shard, *choices):
 
 def obligations(tier):
     q = tier == "quick"
-    steps = 7 if q else 10
+    steps = 7 if q else 9
     obls = []
     for kind in ("from_periodic", "from_iterable", "from_textfile"):
         for native in (False, True):
